@@ -139,7 +139,45 @@ def dispatch_tables(chk: Check) -> None:
             chk.ok("C04.TABLE.dispatch", f"{what} dispatch keys", {"keys": sorted(keys)})
 
 
+def unsupported_refused(chk: Check) -> None:
+    """A valid stream that uses a feature an integration does not implement (quoted triples through the rdflib adapter)
+    is refused with an exception; it is never delivered with a fabricated term in its place."""
+    from ..values import Atom, PyRaise, sstr
+    from .. import kit as K
+
+    rule = "C04.REF.unsupported-refused"
+    chk.rule(rule, "a valid RDF-star stream read through the rdflib integration (which has no quoted-triple term) raises; the generic integration decodes it", floor=4)
+    for parser in ("parse_jelly_flat", "parse_jelly_grouped", "parse_jelly_to_graph"):
+        for integ, mod in (("rdflib", K.RP), ("generic", K.GP)):
+
+            def scenario(it: Interp) -> Any:
+                k = K.Kit(it)
+                w = K.Wire(it)
+                inner = w.msg("RdfTriple", s_bnode=sstr(Atom("q.s")), p_bnode=sstr(Atom("q.p")), o_bnode=sstr(Atom("q.o")))
+                rows = [w.options_row(1, 1, rdf_star=True, generalized_statements=True), w.msg("RdfStreamRow", triple=w.msg("RdfTriple", s_bnode=sstr(Atom("s")), p_bnode=sstr(Atom("p")), o_triple_term=inner))]
+                res = k.call(k.get(mod, parser), k.input_stream([w.frame(rows)]))
+                if parser == "parse_jelly_to_graph":
+                    return P.sink_items(k, integ, res)
+                items = it.drain(res)
+                return [P.sink_items(k, integ, x) for x in items] if parser.endswith("grouped") else [(P.neutral_of_generic if integ == "generic" else P.neutral_of_rdflib)(it, x) for x in items]
+
+            inst = f"{integ}.{parser}: triple whose object is a quoted triple"
+            for it, out in explore(chk.program, scenario, max_paths=4, generic_strings=True):
+                chk.paths += 1
+                if integ == "rdflib":
+                    if out[0] != "ok":
+                        chk.ok(rule, inst, {"refused": it.exc_class_name(out[1].exc)})
+                    else:
+                        chk.fail(rule, inst, "pyjelly.parse.decode.Adapter.quoted_triple:not-refused", f"the rdflib integration has no term for a quoted triple, yet parsing returns normally with {str(out[1])[:200]}: a fabricated term is delivered instead of an error")
+                else:
+                    if out[0] == "ok":
+                        chk.ok(rule, inst, None)
+                    else:
+                        chk.fail(rule, inst, f"pyjelly.integrations.generic.parse.{parser}", f"the generic integration raises {it.exc_class_name(out[1].exc)} on a valid RDF-star stream")
+
+
 def check(chk: Check) -> None:
+    chk.part("unsupported-refused", lambda: unsupported_refused(chk))
     rule = "C04.REF.decodes"
     chk.rule(rule, "streams of a foreign producer (arbitrary legal eviction, split, id, entry, repeat and framing choices) decode to exactly the statements they denote", floor=300)
     chk.rule("C04.TABLE.dispatch", "row and term dispatch tables cover every kind of the wire schema and resolve to methods", floor=2)
